@@ -7,7 +7,9 @@ from hypothesis import strategies as st
 P1, P2, PR = "Player 1", "Player 2", "Probabilistic"
 OWNERS = (P1, P2, PR)
 NAMES = ("a", "b", "c", "d", "e", "f")
-REWARD_POOL = (0, 0, 0, 1, 1, 2, 3, 5, 0.5, 7.25, 1000)
+# action names that are prefixes / substrings of each other, empty, blank, or look like other tokens
+TRICKY_NAMES = ("a", "aa", "ab", "", " ", "b", "None", "a,b", "Down", "down", "0")
+REWARD_POOL = (0, 0, 0, 1, 1, 2, 3, 5, 0.5, 7.25, 1000, 1e6, 1e-3)
 GENERIC_REWARDS = (0, 1, 2.5, 3.25, 5 / 7, 11 / 7, 13 / 7, 1.4142135623730951, 0.3, 4.75, 6.125, 17 / 3)
 
 
@@ -23,6 +25,8 @@ def _float_probs(draw, k):
     if k == 1:
         return [1]
     w = [draw(st.floats(0.02, 1.0, allow_nan=False, allow_infinity=False)) for _ in range(k)]
+    if draw(st.integers(0, 7)) == 0:
+        w[draw(st.integers(0, k - 1))] = draw(st.sampled_from((1e-3, 1e-4, 3e-5)))   # a very unlikely branch
     tot = sum(w)
     return [x / tot for x in w]
 
@@ -71,6 +75,7 @@ def stopping_games(draw, min_inner=1, max_inner=8, dyadic=None, rewards=REWARD_P
     rew = [0] * n
     tl = [None] * n
     owner_pool = owners or (P1, P2, PR, PR)
+    names = NAMES if draw(st.integers(0, 4)) else tuple(draw(st.permutations(TRICKY_NAMES)))[:6]
     for a in inner:
         pl = draw(st.sampled_from(owner_pool))
         if a in dead:
@@ -99,7 +104,7 @@ def stopping_games(draw, min_inner=1, max_inner=8, dyadic=None, rewards=REWARD_P
                 tr.insert(draw(st.integers(0, len(tr))), half)
         else:
             succ = [draw(st.sampled_from(higher)) for _ in range(k)]
-            tr = [(NAMES[i], ids[t]) for i, t in enumerate(succ)]
+            tr = [(names[i], ids[t]) for i, t in enumerate(succ)]
         players[ids[a]] = pl
         rew[ids[a]] = draw(st.sampled_from(rewards))
         tl[ids[a]] = tr
